@@ -234,8 +234,8 @@ func genREdit(t *rapid.T, invalid bool) REdit {
 	if invalid {
 		e.Kind = rapid.SampledFrom(editsInvalid).Draw(t, "invkind")
 	} else {
-		groups := [][]string{editsRequestField, editsTargetField, editsTargetSet, editsRequestSet, editsConfig}
-		g := groups[choose(t, "editgroup", 8, 8, 3, 3, 1)]
+		groups := [][]string{editsRequestField, editsTargetField, editsTargetSet, editsRequestSet, editsBulk, editsConfig}
+		g := groups[choose(t, "editgroup", 8, 8, 3, 3, 2, 1)]
 		e.Kind = g[rapid.IntRange(0, len(g)-1).Draw(t, "kind")]
 	}
 	e.T = rapid.IntRange(0, 299).Draw(t, "t")
